@@ -11,7 +11,8 @@ from .refmodel import Ref, RefError
 class Case:
     """One explored state: a boolean table with labels attached."""
 
-    def __init__(self, rows, tag, labeling):
+    def __init__(self, rows, tag, labeling, variant='fresh'):
+        self.variant = variant
         self.rows = [tuple(r) for r in rows]
         self.n = len(self.rows)
         self.m = len(self.rows[0])
@@ -42,7 +43,31 @@ class Case:
 
     @property
     def lat(self):
-        return self.ctx.lattice
+        """The lattice under study.  Variants reach it by another route than
+        computing it ("start from non-initial states too"): 'pickle' = pickle round
+        trip of the computed lattice, 'fromdict-raw' = reloaded from the serialized
+        dict with the stored order reversed and raw=True."""
+        if getattr(self, '_lat', None) is None:
+            if self.variant == 'fresh':
+                self._lat = self.ctx.lattice
+            elif self.variant == 'pickle':
+                import pickle
+                self._lat = pickle.loads(pickle.dumps(self.ctx.lattice))
+            elif self.variant == 'fromdict-raw':
+                import concepts
+                d = self.ctx.todict()
+                k = len(d['lattice'])
+                perm = {'objects': d['objects'], 'properties': d['properties'],
+                        'context': [tuple(reversed(r)) for r in d['context']],
+                        'lattice': [(tuple(reversed(e)), tuple(reversed(i)),
+                                     tuple(k - 1 - u for u in reversed(up)),
+                                     tuple(k - 1 - l for l in reversed(lo)))
+                                    for e, i, up, lo in reversed(d['lattice'])]}
+                self._ctx = concepts.Context.fromdict(perm, raw=True)
+                self._lat = self._ctx.lattice
+            else:
+                raise ValueError(self.variant)
+        return self._lat
 
     def align(self):
         """Real Concept objects aligned with ``ref.concepts`` (same position =
@@ -83,7 +108,7 @@ class Case:
         return tuple(self._ppos[l] for l in labels)
 
     def ident(self, **extra):
-        d = {'tag': list(self.tag), 'labeling': self.labeling,
+        d = {'tag': list(self.tag), 'labeling': self.labeling, 'variant': self.variant,
              'table': [''.join('X' if b else '.' for b in r) for r in self.rows]
              if self.n * self.m <= 64 else f'{self.n}x{self.m}'}
         d.update(extra)
@@ -120,7 +145,7 @@ def misaligned(prop, case):
 
 def case_from_ident(ident):
     rows = space.rows_from_tag(tuple(ident['tag']))
-    return Case(rows, ident['tag'], ident.get('labeling', space.ASC))
+    return Case(rows, ident['tag'], ident.get('labeling', space.ASC), ident.get('variant', 'fresh'))
 
 
 # ---------------------------------------------------------------- shard sets
@@ -157,8 +182,11 @@ def labelings_for(tag, both=True):
 RECENT = collections.deque(maxlen=3)
 
 
+VARIANT_CELLS = 9     # tables up to this many cells are also explored through the variants
+
+
 def run_shard_generic(shard, tier, prop, check_case, both_labelings=True,
-                      max_violations=5, sample_every=997):
+                      max_violations=5, sample_every=997, variants=()):
     """Explore every table of a shard with ``check_case(case, ctr)``."""
     ctr = collections.Counter()
     viols = []
@@ -166,8 +194,13 @@ def run_shard_generic(shard, tier, prop, check_case, both_labelings=True,
     outcomes = set()
     for n, m, rows, tag in space.tables_of_shard(shard):
         first = True
-        for labeling in labelings_for(tag, both_labelings):
-            case = Case(rows, tag, labeling)
+        runs = [(labeling, 'fresh') for labeling in labelings_for(tag, both_labelings)]
+        if variants and n * m <= VARIANT_CELLS:
+            runs += [(space.ASC, v) for v in variants]
+        for labeling, variant in runs:
+            case = Case(rows, tag, labeling, variant)
+            if variant != 'fresh':
+                ctr['hit_variant_' + variant] += 1
             try:
                 vs = check_case(case, ctr)
             except RefError as e:
@@ -179,7 +212,8 @@ def run_shard_generic(shard, tier, prop, check_case, both_labelings=True,
             ctr['evaluations'] += 1
             for v in vs:
                 v['case']['after'] = [dict(x) for x in RECENT]
-            RECENT.append({'tag': list(case.tag), 'labeling': case.labeling})
+            RECENT.append({'tag': list(case.tag), 'labeling': case.labeling,
+                           'variant': case.variant})
             if first:
                 first = False
                 ctr['tables'] += 1
